@@ -109,6 +109,28 @@ def _inputs(ctx, mod):
                     ins.append({"id": "q%d" % pk, "cast": "pairs", "ops": [
                         rd(a), rd(b), {"op": "edit", "set": "s1", "edit": "layout_deep"},
                         {"op": "edit", "set": "s1", "edit": "style_deep"}, rd(b), fr(a), fr(b)]})
+    if not mod.WRITE_BIAS:
+        # options given to one read are for that read only: the same reader object, read again with the
+        # defaults (and the other way round), returns what a fresh reader returns
+        OPTS = {"SCC": [{"simulate_roll_up": True}, {"offset": 1}, {"lang": "fr"}],
+                "WebVTT": [{"lang": "fr"}], "SRT": [{"lang": "fr"}], "MicroDVD": [{"lang": "fr"}], "DFXP": [{"lang": "fr"}],
+                "SAMI": [{"lang": "fr"}]}
+        from . import corpus as _c
+        ok = {}
+        for d, (kd, _) in _c.readable_docs().items():
+            ok.setdefault(kd, []).append(d)
+        pk = 0
+        for kd, ds in ok.items():
+            for o in OPTS.get(kd, []):
+                if kd in ("DFXP", "SAMI") and "lang" in o:
+                    continue            # these readers take the languages from the document
+                for a in ds:
+                    for b in ds:
+                        pk += 1
+                        if ctx.quick and kd != "SCC" and pk % 3:
+                            continue
+                        rd = lambda d, oo: {"op": "read", "reader": "shared", "kind": kd, "doc": d, "opts": oo}
+                        ins.append({"id": "o%d" % pk, "cast": "options", "ops": [rd(a, o), rd(b, {}), rd(a, {}), rd(b, o)]})
     for k in range(150 if ctx.quick else 4000):
         ins.append({"id": "r%d" % k, "ops": histories.random_history(rng, rng.randrange(12, 21), mod.WRITE_BIAS), "cast": "-"})
     # reference values for every term, computed up front in fresh interpreters
